@@ -507,6 +507,28 @@ func init() {
 			}
 			return res
 		}})
+	addOp(&connOp{name: "ReadBatchShortBuffer", key: 1, vers: []int16{2, 10}, fetch: true, prep: seekPrep, logs: []string{"v1mixed", "v2plain"}, starts: []int64{0}, maxBytes: []int{1 << 20},
+		targets: []target{{1, 0}},
+		call: func(e *env) opResult {
+			// a buffer too small for the first value: Batch.Read skips the message and reports io.ErrShortBuffer, which keeps the
+			// Conn usable; Close then has to skip the rest of the response, and that is where the connection may end
+			b := e.conn.ReadBatchWith(readBatchCfg(e))
+			res := opResult{batch: true}
+			_, res.readErr = b.Read(make([]byte, 1))
+			res.closeErr = b.Close()
+			return res
+		}})
+	addOp(&connOp{name: "ReadBatchOutOfRange", key: 1, vers: []int16{2, 5, 10}, fetch: true, prep: seekPrep, logs: []string{"v2plain"}, starts: []int64{100000}, maxBytes: []int{1 << 20},
+		targets: []target{{1, 0}},
+		call: func(e *env) opResult {
+			// the position lies beyond the log: the broker answers with OFFSET_OUT_OF_RANGE in the partition header, the rest of
+			// the (short) response still has to be consumed
+			b := e.conn.ReadBatchWith(readBatchCfg(e))
+			res := opResult{batch: true}
+			_, res.readErr = b.ReadMessage()
+			res.closeErr = b.Close()
+			return res
+		}})
 	addOp(&connOp{name: "ConnRead", key: 1, vers: []int16{2, 10}, fetch: true, prep: seekPrep, logs: []string{"v1mixed", "v2plain"}, starts: []int64{0}, maxBytes: []int{1 << 20},
 		targets: []target{{1, 0}},
 		call: func(e *env) opResult {
